@@ -127,3 +127,19 @@ package dns
 //@   assert at "ds.Digest = hex.EncodeToString(s.Sum(nil))" order: same(callarg("Write", 0), wire)
 //@   exit fields: ret0 != nil ==> ret0.Hdr.Rrtype == 43 && ret0.Hdr.Class == k.Hdr.Class && ret0.Hdr.Ttl == k.Hdr.Ttl && ret0.Hdr.Name == k.Hdr.Name && ret0.Algorithm == k.Algorithm && ret0.DigestType == h && ret0.KeyTag == callres("KeyTag")
 //@   exit digest: ret0 != nil ==> (h == 1 || h == 2 || h == 4 || h == 5)
+
+// RSA public key import (RFC 3110 section 2): one exponent-length octet, or zero followed by a 16-bit length; the
+// exponent; the modulus is the rest.  A key is refused only for the reasons stated here: exponent longer than
+// 4 octets, empty or with a leading zero or above 2^31-1; modulus shorter than 64 or longer than 512 octets
+// (512..4096 bits, the sizes Generate produces) or with a leading zero.
+//@ func (*DNSKEY).publicKeyRSA [C17]
+//@   opt no-safety
+//@   requires k != nil
+//@   assert at "return nil@2" short: len(keybuf) < 66
+//@   assert at "return nil@3" exprej: explen > 4 || explen == 0 || keybuf[keyoff] == 0
+//@   assert at "return nil@4" modrej: modlen < 64 || modlen > 512 || keybuf[modoff] == 0
+//@   assert at "return nil@5" bigexp: expo > 2147483647
+//@   assert at "modoff := keyoff + int(explen)" explen: (keybuf[0] != 0 ==> explen == keybuf[0] && keyoff == 1) && (keybuf[0] == 0 ==> explen == keybuf[1] * 256 + keybuf[2] && keyoff == 3)
+//@   assert at "modlen := len(keybuf) - modoff" modlen: modoff == keyoff + explen && modlen == len(keybuf) - modoff
+//@   callsite "SetBytes" modulus: sliceoff(arg1) == sliceoff(keybuf) + modoff && len(arg1) == len(keybuf) - modoff && ref(arg1) == ref(keybuf)
+//@   exit exponent: ret0 != nil ==> ret0.E == expo
